@@ -112,6 +112,111 @@ fn call_mock(
     }
 }
 
+/// The same call while another connection to the server is stalled: connection A has sent its
+/// request head and the first `split` bytes of its body and then nothing; the client's request
+/// (connection B) must still be answered; afterwards A's body completes and A must be answered
+/// too.  Every future is polled by hand with a no-op waker, a bounded number of times: the
+/// server's own lock is the only thing B can wait for.
+fn call_mock_beside_stalled_connection(
+    server: &Arc<tokio::sync::Mutex<mock_omaha_server::OmahaServer>>,
+    path: &str,
+    body: Vec<u8>,
+    split: usize,
+) -> Result<(u16, Vec<(String, Vec<u8>)>, Vec<u8>), String> {
+    use std::future::Future;
+    use std::task::{Context, Poll};
+    let split = split.min(body.len());
+    let (first, rest) = (body[..split].to_vec(), body[split..].to_vec());
+    let server = server.clone();
+    let path = path.to_string();
+    let r = std::panic::catch_unwind(std::panic::AssertUnwindSafe(move || {
+        let _g = SutGuard::enter();
+        let waker = futures::task::noop_waker();
+        let mut cx = Context::from_waker(&waker);
+        let (mut tx, abody) = hyper::Body::channel();
+        let req_a = hyper::Request::builder().method("POST").uri(path.as_str()).body(abody).map_err(|e| e.to_string())?;
+        if !first.is_empty() {
+            tx.try_send_data(first.into()).map_err(|_| "harness: could not queue the first part of the stalled body".to_string())?;
+        }
+        let sa = server.clone();
+        let mut fa = Box::pin(async move { mock_omaha_server::handle_request(req_a, &sa).await.map(|r| r.status().as_u16()).map_err(|e| e.to_string()) });
+        let mut ra = None;
+        for _ in 0..4 {
+            if let Poll::Ready(x) = fa.as_mut().poll(&mut cx) {
+                ra = Some(x);
+                break;
+            }
+        }
+        let req_b = hyper::Request::builder().method("POST").uri(path.as_str()).body(hyper::Body::from(body)).map_err(|e| e.to_string())?;
+        let sb = server.clone();
+        let mut fb = Box::pin(async move {
+            let resp = mock_omaha_server::handle_request(req_b, &sb).await.map_err(|e| e.to_string())?;
+            let (parts, body) = resp.into_parts();
+            let bytes = hyper::body::to_bytes(body).await.map_err(|e| e.to_string())?.to_vec();
+            let headers: Vec<(String, Vec<u8>)> = parts.headers.iter().map(|(k, v)| (k.as_str().to_string(), v.as_bytes().to_vec())).collect();
+            Ok::<_, String>((parts.status.as_u16(), headers, bytes))
+        });
+        let mut rb = None;
+        for _ in 0..64 {
+            if let Poll::Ready(x) = fb.as_mut().poll(&mut cx) {
+                rb = Some(x);
+                break;
+            }
+        }
+        let blocked = rb.is_none() && ra.is_none();
+        // connection A gets going again
+        let mut rest = Some(rest);
+        for _ in 0..64 {
+            if let Some(chunk) = rest.take() {
+                if chunk.is_empty() {
+                    // nothing left to send
+                } else if let Err(back) = tx.try_send_data(chunk.clone().into()) {
+                    let _ = back;
+                    rest = Some(chunk);
+                }
+                if rest.is_none() {
+                    // end of body
+                    let (t2, _unused) = hyper::Body::channel();
+                    drop(std::mem::replace(&mut tx, t2));
+                }
+            }
+            if ra.is_none() {
+                if let Poll::Ready(x) = fa.as_mut().poll(&mut cx) {
+                    ra = Some(x);
+                }
+            }
+            if ra.is_some() && rest.is_none() {
+                break;
+            }
+        }
+        if rb.is_none() {
+            for _ in 0..64 {
+                if let Poll::Ready(x) = fb.as_mut().poll(&mut cx) {
+                    rb = Some(x);
+                    break;
+                }
+            }
+        }
+        if blocked {
+            return Err("no answer while another connection was stalled in the middle of its request body (64 polls); it was answered only after that connection went on".to_string());
+        }
+        match ra {
+            Some(Ok(200)) => {}
+            Some(Ok(st)) => return Err(format!("the connection that had been stalled was answered with status {st}")),
+            Some(Err(e)) => return Err(format!("the connection that had been stalled failed: {e}")),
+            None => return Err("the connection that had been stalled was never answered after its body completed".to_string()),
+        }
+        rb.unwrap_or_else(|| Err("no answer (64 polls)".to_string()))
+    }));
+    match r {
+        Ok(x) => x,
+        Err(_) => {
+            let pi = crate::take_last_panic();
+            Err(format!("PANIC {}", pi.map(|p| format!("{} at {}", p.msg, p.location)).unwrap_or_default()))
+        }
+    }
+}
+
 /// An admin client reconfigures the responses (POST /set_responses_by_appid).
 pub fn reconfigure(w: &mut World, n: u32) {
     let server = match &w.server.mock {
@@ -169,7 +274,16 @@ pub fn handle(w: &mut World, id: u64, _label: &str, req: &SentReq) -> Option<(u1
     let path = origin_form(&req.uri);
     let cfg_now = w.server.mock_cfg.clone();
     w.rec(Kind::ServerHandled { id, server: format!("mock:{:?}", cfg_now) });
-    match call_mock(&server, &path, req.body.clone()) {
+    // another client's connection may be stalled mid-body at this moment
+    let stalled = w.draws.chance(&format!("{_label}/stalled_neighbour"), 120);
+    let answer = if stalled {
+        w.stat("mock.request_beside_a_stalled_connection");
+        let split = w.draws.draw(&format!("{_label}/stalled_neighbour.split"), 4) as usize * req.body.len() / 4;
+        call_mock_beside_stalled_connection(&server, &path, req.body.clone(), split)
+    } else {
+        call_mock(&server, &path, req.body.clone())
+    };
+    match answer {
         Ok((status, headers, body)) => {
             let doc: Option<Value> = serde_json::from_slice(&body).ok();
             // does the client's parser accept the body?
